@@ -21,6 +21,9 @@
                 run_function as before (d1 = d0), also when the callee failed; when the callee takes exactly the one
                 argument rb1 pushed and returns normally, the value stack is as high as before (h1 = h0). (A callee
                 of another arity takes what it finds: run_function cannot know how many values the host pushed.)
+              - error wrapping: when the last thing a run logged is the failing return of a native called from
+                the top-level run, the run's error is the task failure carrying that native's name, then the name
+                of its last nested native call if that one failed too, and so on (wrapping_ok),
               - names starting with "__" are rejected by register_native_function, other names are accepted,
               - no run ends in a Rust panic (VmCheck.panic_code),
           3 / 4 / 5 as in VmCheck; 3 also for a malformed record. *)
@@ -190,6 +193,65 @@ Fixpoint check_records (panicked : bool) (prev : option (list N * list tval)) (l
         (match prev with Some _ => [2] | None => [] end) ++ check_records panicked None rest
   end.
 
+(* ---- error wrapping, from the records alone ----
+   The call / return records nest.  A native whose call ended with an error (return code <> 0) contributes its
+   name, followed by the chain of its LAST nested native call when that one failed too (the re-entrant natives of
+   the menu hand the callee's error on; try1 swallows it and returns 0).  When the last thing a run logged is the
+   failing return of a native called from the top-level run, the run ended right there, and its error must be the
+   task failure carrying exactly that chain of names (names of natives that are not behind the recording wrapper -
+   the library's __min / __max / __sort - are ignored). *)
+Fixpoint tf_names (e : err) : list (list N) :=
+  match e with ETaskFailure n inner => n :: tf_names inner | _ => [] end.
+Definition recorded_name (n : list N) : bool :=
+  match signature n signatures with Some _ => true | None => false end.
+
+(* stack: (name, chain of the last nested call); result: chain of the last top-level call if it is the last event *)
+Fixpoint wrap_chain (stack : list (list N * list (list N))) (top_last : list (list N)) (l : list (list tval))
+  : option (list (list N)) :=
+  match l with
+  | [] => match stack with [] => Some top_last | _ => None end
+  | e :: rest =>
+      match record_of e with
+      | Some (name, kind, items) =>
+          if (kind =? 0)%Z then wrap_chain ((name, []) :: stack) [] rest
+          else if (kind =? 1)%Z then
+            match stack, items with
+            | (n, lastc) :: st, [TInt r] =>
+                let chain := if (r =? 0)%Z then [] else n :: lastc in
+                match st with
+                | [] => wrap_chain [] chain rest
+                | (pn, _) :: st' => wrap_chain ((pn, chain) :: st') [] rest
+                end
+            | [], [TInt r] =>
+                (* a return without a recorded call (conversion failure before the wrapper saw the call cannot
+                   happen; be permissive) *)
+                wrap_chain [] [] rest
+            | _, _ => None
+            end
+          else wrap_chain stack top_last rest          (* parameters as received *)
+      | None =>
+          match stack with
+          | [] => wrap_chain [] [] rest                (* something else happened after the last top-level call *)
+          | _ => wrap_chain stack top_last rest
+          end
+      end
+  end.
+
+Definition wrapping_ok (o : obs) : bool :=
+  match ob_out o with
+  | ObPanic => true
+  | out =>
+      match wrap_chain [] [] (ob_log o) with
+      | None => true                                   (* malformed nesting is reported by check_records *)
+      | Some [] => true
+      | Some chain =>
+          match out with
+          | ObErr e _ => list_eqb (list_eqb N.eqb) (filter recorded_name (tf_names e)) chain
+          | _ => false                                 (* a native failed at the top level and the run did not *)
+          end
+      end
+  end.
+
 Definition strip_obs (o : obs) : obs :=
   mkObs (ob_out o) (ob_globals o) (filter (fun e => negb (is_record e)) (ob_log o)) (ob_shape o).
 Definition strip_case (c : vmcase) : vmcase :=
@@ -200,10 +262,15 @@ Definition strip_case (c : vmcase) : vmcase :=
 
 Definition oracle (c : vmcase) : list N :=
   match c with
-  | VmProg _ _ _ runs =>
+  | VmProg _ mode _ runs =>
       flat_map (fun r => if forallb rb1_entry_ok (ob_log (snd r)) then [] else [2]) runs ++
       flat_map (fun r => check_records (match ob_out (snd r) with ObPanic => true | _ => false end) None
-                                       (ob_log (snd r))) runs
+                                       (ob_log (snd r))) runs ++
+      (* only for runs on fresh VMs: in the history modes the host log accumulates over the runs *)
+      match mode with
+      | MFresh => flat_map (fun r => if wrapping_ok (snd r) then [] else [2]) runs
+      | _ => []
+      end
   | VmReserved answers => if forallb (fun b => b) answers then [] else [2]
   | VmOpTable _ => []
   end.
